@@ -23,6 +23,10 @@ func checkC07(ctx *Ctx, r *Report) {
 	eng := newEffectsEngine(ctx)
 
 	checkProcessCopiesFirst(ctx, r, "copycheck/use")
+	c18IRCopies(ctx, r)
+	c07PackageQualifiedLookups(ctx, r)
+	c07NameKeyedState(ctx, r, eng)
+	c07SortedValueUsed(ctx, r)
 	c07NoInputMutation(ctx, r, eng)
 	c07WhoMayCall(ctx, r)
 	c07NoGlobalState(ctx, r)
@@ -928,4 +932,236 @@ func keysOf(m map[string]bool) []string {
 	}
 	sort.Strings(out)
 	return out
+}
+
+// c07PackageQualifiedLookups: objects are identified by (package, name). Every way a (pkg, name) lookup has of answering
+// "found" must depend on the package it was asked for: a fallback that answers from the name alone makes the result
+// depend on which other packages happen to be loaded (and on their order) — adding an unrelated input changes the files
+// generated for the others.
+func c07PackageQualifiedLookups(ctx *Ctx, r *Report) {
+	n := 0
+	ctx.AllFuncDecls(func(p *packages.Package, fd *ast.FuncDecl, obj *types.Func) {
+		if fd.Body == nil {
+			return
+		}
+		rel := ctx.RelPkg(p.PkgPath)
+		if rel != "internal/ast" && rel != "internal/languages" {
+			return
+		}
+		if !(strings.HasPrefix(fd.Name.Name, "Locate") || strings.HasPrefix(fd.Name.Name, "Resolve")) {
+			return
+		}
+		info := p.TypesInfo
+		var pkgParam types.Object
+		for _, f := range fd.Type.Params.List {
+			for _, nm := range f.Names {
+				if nm.Name == "pkg" {
+					pkgParam = info.Defs[nm]
+				}
+			}
+		}
+		if pkgParam == nil {
+			return
+		}
+		n++
+		parents := parentMap(fd)
+		// variables obtained from a call that was given pkg, or from ranging with a test on pkg
+		tainted := map[types.Object]bool{pkgParam: true}
+		ast.Inspect(fd.Body, func(m ast.Node) bool {
+			if as, ok := m.(*ast.AssignStmt); ok && len(as.Rhs) == 1 {
+				uses := false
+				ast.Inspect(as.Rhs[0], func(q ast.Node) bool {
+					if id, ok := q.(*ast.Ident); ok && tainted[objOf(info, id)] {
+						uses = true
+					}
+					return true
+				})
+				if uses {
+					for _, l := range as.Lhs {
+						if id, ok := l.(*ast.Ident); ok {
+							tainted[objOf(info, id)] = true
+						}
+					}
+				}
+			}
+			return true
+		})
+		mentions := func(e ast.Node) bool {
+			found := false
+			ast.Inspect(e, func(q ast.Node) bool {
+				if id, ok := q.(*ast.Ident); ok && tainted[objOf(info, id)] {
+					found = true
+				}
+				return true
+			})
+			return found
+		}
+		k := 0
+		ast.Inspect(fd.Body, func(m ast.Node) bool {
+			rs, ok := m.(*ast.ReturnStmt)
+			if !ok || len(rs.Results) == 0 {
+				return true
+			}
+			// "not found" answers: last result false, or a single zero-value / nil / empty result
+			last := rs.Results[len(rs.Results)-1]
+			if tv, ok := info.Types[last]; ok && tv.Value != nil && tv.Value.String() == "false" {
+				return true
+			}
+			k++
+			qualified := false
+			for _, e := range rs.Results {
+				if mentions(e) {
+					qualified = true
+				}
+			}
+			for _, ctl := range controllingIfs(parents, fd, rs) {
+				if mentions(ctl.Cond) || (ctl.Init != nil && mentions(ctl.Init)) {
+					qualified = true
+				}
+			}
+			r.Check(qualified, "lookup/package-qualified", fmt.Sprintf("%s answer #%d", ctx.FuncName(obj), k), rs.Pos(), "the answer depends on the package asked for",
+				fmt.Sprintf("%s can answer %s without having compared anything with the package it was asked for: an object of the same name in any other loaded package is returned — which one depends on the inputs present and on their order", ctx.FuncName(obj), exprString(rs.Results[0])))
+			return true
+		})
+	})
+	r.Count("(package, name) lookups", n)
+	r.Floor("(package, name) lookups", 4)
+}
+
+// c07SortedValueUsed: a sort whose result is not read afterwards is dead code: the order it was meant to impose (on files,
+// index entries, …) is not imposed, and what is emitted follows the order of the inputs instead.
+func c07SortedValueUsed(ctx *Ctx, r *Report) {
+	n := 0
+	ctx.AllFuncDecls(func(p *packages.Package, fd *ast.FuncDecl, obj *types.Func) {
+		if fd.Body == nil {
+			return
+		}
+		info := p.TypesInfo
+		k := 0
+		ast.Inspect(fd.Body, func(m ast.Node) bool {
+			c, ok := m.(*ast.CallExpr)
+			if !ok || len(c.Args) == 0 {
+				return true
+			}
+			fn := callee(info, c)
+			if fn == nil || fn.Pkg() == nil {
+				return true
+			}
+			switch fn.Pkg().Path() + "." + fn.Name() {
+			case "sort.Strings", "sort.Ints", "sort.Slice", "sort.SliceStable", "sort.Sort", "sort.Stable", "slices.Sort", "slices.SortFunc", "slices.SortStableFunc":
+			default:
+				return true
+			}
+			id, ok := ast.Unparen(c.Args[0]).(*ast.Ident)
+			if !ok {
+				return true // a field or an element: owned elsewhere
+			}
+			v, ok := objOf(info, id).(*types.Var)
+			if !ok || v.IsField() || v.Pos() < fd.Body.Pos() {
+				return true // parameters are the caller's
+			}
+			n++
+			k++
+			used := false
+			ast.Inspect(fd.Body, func(q ast.Node) bool {
+				if u, ok := q.(*ast.Ident); ok && u.Pos() > c.End() && objOf(info, u) == v {
+					used = true
+				}
+				return true
+			})
+			// sorting inside a loop body: a use earlier in the body on the next iteration does not count; closures returning later do
+			r.Check(used, "maporder/sorted-value-used", fmt.Sprintf("%s sorts %s #%d", ctx.FuncName(obj), id.Name, k), c.Pos(), "the sorted value is read afterwards",
+				fmt.Sprintf("%s sorts the local %s and never reads it again: the order is imposed on a value nobody uses, and what is emitted afterwards follows the order of the inputs", ctx.FuncName(obj), id.Name))
+			return true
+		})
+	})
+	r.Count("sorts of local values", n)
+	r.Floor("sorts of local values", 10)
+}
+
+// c07NameKeyedState: a pass that remembers objects in a map of its own under their *name* only (no package) may only use
+// that memory within one schema: the map has to be emptied (clear / re-made) in a method that runs once per schema, or be
+// keyed by package and name. Otherwise what the pass learnt in one package is applied to the objects of the same name of
+// every package visited after it — adding an unrelated input changes the output for the others.
+func c07NameKeyedState(ctx *Ctx, r *Report, eng *effectsEngine) {
+	pkg := ctx.Pkg("internal/ast/compiler")
+	if pkg == nil {
+		return
+	}
+	info := pkg.TypesInfo
+	schemaT := ctx.LookupType("internal/ast", "Schema")
+	n := 0
+	for _, p := range allPasses(ctx, eng) {
+		st, ok := p.named.Underlying().(*types.Struct)
+		if !ok {
+			continue
+		}
+		for i := 0; i < st.NumFields(); i++ {
+			fld := st.Field(i)
+			mt, ok := fld.Type().Underlying().(*types.Map)
+			if !ok || fld.Exported() {
+				continue
+			}
+			if b, ok := mt.Key().Underlying().(*types.Basic); !ok || b.Kind() != types.String {
+				continue
+			}
+			// keys used to store into the map
+			nameOnly := ""
+			perSchemaReset := false
+			for _, fd := range methodsOf(ctx, p.named) {
+				takesSchema := false
+				for _, prm := range fd.Type.Params.List {
+					if pt, ok := info.TypeOf(prm.Type).(*types.Pointer); ok && namedOf(pt.Elem()) == schemaT {
+						takesSchema = true
+					}
+				}
+				ast.Inspect(fd.Body, func(m ast.Node) bool {
+					switch x := m.(type) {
+					case *ast.AssignStmt:
+						for li, l := range x.Lhs {
+							if ix, ok := ast.Unparen(l).(*ast.IndexExpr); ok && fieldOf(info, ix.X) == fld {
+								usesPkg, usesName := false, false
+								ast.Inspect(ix.Index, func(q ast.Node) bool {
+									switch y := q.(type) {
+									case *ast.SelectorExpr:
+										switch y.Sel.Name {
+										case "ReferredPkg", "Package":
+											usesPkg = true
+										case "Name", "ReferredType":
+											usesName = true
+										}
+									case *ast.CallExpr:
+										if fn := callee(info, y); fn != nil && fn.Name() == "String" {
+											usesPkg = true // RefType.String() / ObjectReference.String(): "pkg.Name"
+										}
+									}
+									return true
+								})
+								if usesName && !usesPkg && nameOnly == "" {
+									nameOnly = exprString(ix.Index)
+								}
+							}
+							// r.F = make(...) in a per-schema method
+							if sel, ok := ast.Unparen(l).(*ast.SelectorExpr); ok && fieldOf(info, sel) == fld && takesSchema && li < len(x.Rhs) {
+								perSchemaReset = true
+							}
+						}
+					case *ast.CallExpr:
+						if id, ok := x.Fun.(*ast.Ident); ok && id.Name == "clear" && len(x.Args) == 1 && fieldOf(info, x.Args[0]) == fld && takesSchema {
+							perSchemaReset = true
+						}
+					}
+					return true
+				})
+			}
+			if nameOnly == "" {
+				continue
+			}
+			n++
+			r.Check(perSchemaReset, "effects/name-keyed-state-per-schema", p.named.Obj().Name()+"."+fld.Name(), fld.Pos(), "keyed by object name and emptied for every schema",
+				fmt.Sprintf("%s.%s remembers objects under %s (a name without its package) for the whole Process call: what is recorded while visiting one package is applied to the objects of the same name in every package visited afterwards", p.named.Obj().Name(), fld.Name(), nameOnly))
+		}
+	}
+	r.Count("name-keyed maps kept by passes", n)
+	r.Floor("name-keyed maps kept by passes", 1)
 }
